@@ -39,7 +39,16 @@ def main():
             print("REPLAY %s: %s" % (pid, "violation reproduced" if again else "not reproduced"))
             return 1 if again else 0
         rep = lib.Report(pid, a.tier)
-        mod.run(rep, a.tier)
+        try:
+            mod.run(rep, a.tier)
+        except lib.ToolError as e:
+            # a leg that could not complete AFTER violations were already observed does not erase them: the verdict
+            # stands (exit 1), the incomplete leg is recorded in the evidence
+            if rep.violations:
+                print("TOOL-ERROR %s (after violations were found; verdict stands): %s" % (pid, e), file=sys.stderr)
+                rep.assumptions.append("a later leg did not complete: %s" % str(e)[:300])
+                return rep.finish()
+            raise
         return rep.finish()
     except lib.ToolError as e:
         print("TOOL-ERROR %s: %s" % (pid, e), file=sys.stderr)
